@@ -382,7 +382,12 @@ class AsyncInotifyWrapper:
             )
             logger.debug("Received inotify event: %s %s", change.name, event.path)
             if event.mask & Mask.ISDIR:
-                # For directories, we only care about updating the inotify watches.
+                # A directory is recorded nowhere but in the match set of a glob pattern,
+                # where it is written with a trailing separator (see `NamedGlob.glob`).
+                # Report it in that form, so a pattern matching directories gains and loses
+                # matches while watching just as it does when the patterns are rescanned at startup.
+                self.change_queue.put_nowait((change, path / ""))
+                # Other than that, we only care about updating the inotify watches.
                 if change == Change.DELETED:
                     # Unset the watch for the directory.
                     # We do not remove it from the watches dict,
